@@ -443,6 +443,30 @@ func (g *groupConsumer) manageFailWait(consecutiveErrors int, err error) (ctxCan
 	// block around the onLost and assigning.
 	g.c.waitAndAddRebalance()
 
+	// KIP-848: a heartbeat response that takes partitions away removes
+	// them from nowAssigned immediately (handleResp), but their revocation
+	// is the NEXT session's prerevoke of lastAssigned - nowAssigned. If we
+	// get here instead of entering that session (the context was canceled
+	// because the group is being left, or a fatal error), that prerevoke
+	// never runs and the user would never be told those partitions are
+	// gone. They were owned at the start of the session that just ended
+	// and have not been revoked: add them back so that the onRevoked /
+	// onLost below covers them.
+	g.mu.Lock()
+	is848 := g.is848
+	g.mu.Unlock()
+	if is848 && len(g.lastAssigned) > 0 {
+		g.nowAssigned.write(func(nowAssigned map[string][]int32) {
+			for topic, lastPartitions := range g.lastAssigned {
+				for _, lastPartition := range lastPartitions {
+					if !slices.Contains(nowAssigned[topic], lastPartition) {
+						nowAssigned[topic] = append(nowAssigned[topic], lastPartition)
+					}
+				}
+			}
+		})
+	}
+
 	if errors.Is(err, context.Canceled) {
 		// The cooperative consumer does not revoke everything
 		// while rebalancing, meaning if our context is
